@@ -259,10 +259,11 @@ class DQN(RLAlgorithm):
         masked_policy_actions = torch.argmax(masked_q_values, dim=-1)
 
         # actions_random = torch.randint_like(actions, n_act)
+        # NOTE: The draw lies in [0, 1), so with epsilon=0 the policy action must always be used
         use_policy = (
             torch.empty(masked_policy_actions.shape, device=q_values.device)
             .uniform_()
-            .gt(epsilon)
+            .ge(epsilon)
         )
 
         # Recompute actions with masking
